@@ -1051,7 +1051,7 @@ def decompose_curve(obj, **kwargs):
     multi_curve = []
     curve = _clamp_ends(copy.deepcopy(obj), 0, **kwargs)
     knots = curve.knotvector[curve.degree + 1:-(curve.degree + 1)]
-    while knots:
+    while len(knots) > 0:
         knot = knots[0]
         curves = split_curve(curve, param=knot, **kwargs)
         multi_curve.append(curves[0])
@@ -1307,7 +1307,7 @@ def decompose_surface(obj, **kwargs):
         srf_list = []
         srf = _clamp_ends(srf, idx, **kws)
         knots = srf.knotvector[idx][srf.degree[idx] + 1:-(srf.degree[idx] + 1)]
-        while knots:
+        while len(knots) > 0:
             knot = knots[0]
             srfs = split_func_list[idx](srf, param=knot, **kws)
             srf_list.append(srfs[0])
